@@ -28,7 +28,7 @@ pub use vharness::common::DAY;
 /// 2023-11-14T00:00:00Z: start of a UTC day, so that `T0 + k*DAY` are day starts
 pub const T0: i64 = 1_699_920_000_000;
 
-pub const MODEL: &str = "ns { Doc{ a:String, b:String nullable } Plain(no_full_text_index){ a:String } }";
+pub const MODEL: &str = "ns { Doc{ a:String, b:String nullable } Plain(no_full_text_index){ a:String } Note{ a:String nullable, b:String nullable } Memo{ a:String nullable } }";
 
 pub struct Peer {
     pub db: GraphDatabaseService,
